@@ -222,14 +222,14 @@ theorem gen_failure_names_known (fuel : Nat) (start : String) (k : Nat) (c' : PS
 /-! ### Non-vacuity: a concrete grammar and failing inputs meet the hypotheses -/
 
 /-- `r = { "a" ~ s? ~ !t ~ ASCII_DIGIT }`, `s = { "x" | "y" }`, `t = { "z" }`, `u = { PEEK }`,
-    `WHITESPACE = _{ " " }`; `ASCII_DIGIT` is an embedded built-in rule object -/
+    `WHITESPACE = _{ " " | "\n" }`; `ASCII_DIGIT` is an embedded built-in rule object -/
 def demoG : Grammar :=
   { rules := [⟨"r", 0, .seq [.str [97], .opt (.ident "s" none), .notP (.ident "t" none),
                  .rule "ASCII_DIGIT" 2 true (.range 48 57)], .grammar⟩,
               ⟨"s", 0, .choice [.str [120], .str [121]], .grammar⟩,
               ⟨"t", 0, .str [122], .grammar⟩,
               ⟨"u", 0, .peek, .grammar⟩,
-              ⟨"WHITESPACE", SILENT, .str [32], .grammar⟩] }
+              ⟨"WHITESPACE", SILENT, .choice [.str [32], .str [10]], .grammar⟩] }
 
 example : knownNames demoG = ["r", "s", "t", "u", "WHITESPACE", "ASCII_DIGIT"] := by decide +kernel
 example : ∀ r ∈ demoG.rules, namesIn demoG r.body := by decide +kernel
@@ -268,6 +268,20 @@ example : failsAtG #[97, 32, 121, 32, 122] (LG.parse demoG #[97, 32, 121, 32, 12
 -- start position 2 of "qqb": fails at 2 = start_pos
 example : failsAt1 #[113, 113, 98] (L1.parse demoG #[113, 113, 98] 30 "r" 2) 2 1 0 = true := by decide +kernel
 example : failsAtG #[113, 113, 98] (LG.parse demoG #[113, 113, 98] 30 "r" 2) 2 1 0 = true := by decide +kernel
+
+/-- what the error message shows after a failure -/
+def contextOf1 (inp : Input) : R1 → Option (Text × Nat × Int)
+  | .done false c _ => if c.fpos ≠ -1 then errorContext inp.toList c.fpos else none
+  | _ => none
+def contextOfG (inp : Input) : RG → Option (Text × Nat × Int)
+  | .done false c _ => if c.fpos ≠ -1 then errorContext inp.toList c.fpos else none
+  | _ => none
+-- "a y\nq": the failure at 4 is shown as line 2, column 1, source line "q"
+example : OnlyLF (#[97, 32, 121, 10, 113] : Input).toList := by decide +kernel
+example : contextOf1 #[97, 32, 121, 10, 113] (L1.parse demoG #[97, 32, 121, 10, 113] 30 "r" 0)
+    = some ([113], 2, 1) := by decide +kernel
+example : contextOfG #[97, 32, 121, 10, 113] (LG.parse demoG #[97, 32, 121, 10, 113] 30 "r" 0)
+    = some ([113], 2, 1) := by decide +kernel
 
 /-- failed without any recorded expectation: the sentinel -/
 def sentinel1 : R1 → Bool
